@@ -83,3 +83,31 @@ def struct_program(rng):
             body += _add("s.m%d" % j, types[j], j + 1)
     out += ["fn main() -> i32", "{"] + body + ["\treturn: acc", "}"]
     return "\n".join(out) + "\n", expected % 256, how + (":word" if word else ":struct")
+
+
+def illtyped_aggregates():
+    """ill-typed programs around aggregate shapes (ragged nested array / string literals, a literal against an annotation
+    of another length, a pointer to an array of another length).  The compiler must reject them; whatever it accepts
+    instead must still be valid IR (C03) — the generator trusts the typer to have made all elements of a literal alike."""
+    def lit(shape, elem="i32"):
+        if not shape:
+            return "1" + elem
+        return "[" + ", ".join(lit(shape[1:], elem) for _ in range(shape[0])) + "]"
+    out = []
+    for inner in ((3, 2), (2, 3), (1, 2), (2, 2, 3), (3, 3, 2)):
+        rows = ", ".join(lit((k,)) for k in inner)
+        strs = ", ".join('"' + "abcdefg"[:k] + '"' for k in inner)
+        for body in ("var g = [%s];" % rows, "var g: [%d][%d]i32 = [%s];" % (len(inner), inner[0], rows),
+                     "var g = [%s];" % strs, "var g: [%d][%d]char8 = [%s];" % (len(inner), inner[0], strs),
+                     "var g = [%s];\n\tvar x = g[1][0];" % rows):
+            out.append("fn main()\n{\n\t%s\n}\n" % body)
+            out.append("fn f() -> i32\n{\n\t%s\n\treturn: 1\n}\nfn main() -> i32\n{\n\treturn: f()\n}\n" % body)
+    for (a, b) in (((3,), (2,)), ((2,), (3,)), ((2, 3), (2, 2)), ((2, 2), (3, 2))):
+        ta = "".join("[%d]" % k for k in a) + "i32"
+        tb = "".join("[%d]" % k for k in b) + "i32"
+        out.append("fn main()\n{\n\tvar x: %s = %s;\n}\n" % (ta, lit(b)))
+        out.append("fn main()\n{\n\tvar a: %s = %s;\n\tvar p: &%s = &a;\n}\n" % (ta, lit(a), tb))
+        out.append("fn callee(p: &%s)\n{\n}\nfn main()\n{\n\tvar a: %s = %s;\n\tcallee(&a);\n}\n" % (tb, ta, lit(a)))
+        out.append("struct S\n{\n\tm: %s,\n}\nfn main()\n{\n\tvar s = S { m: %s };\n}\n" % (ta, lit(b)))
+        out.append("const K: %s = %s;\nfn main()\n{\n}\n" % (ta, lit(b)))
+    return out
